@@ -397,11 +397,34 @@ def prefix_classes(ctx, data, offs, case):
     return eofs, bad
 
 
-def offsets_for(rng, n, limit):
+def frame_offsets(data):
+    '''offsets around the frame boundaries of a pickle (empty if it does not parse)'''
+    offs = set()
+    try:
+        for opc, arg, pos in pickletools.genops(data):
+            if opc.name == 'FRAME':
+                for k in (pos - 1, pos, pos + 1, pos + 9, pos + 10, pos + 9 + arg - 1,
+                          pos + 9 + arg, pos + 9 + arg + 1):
+                    if 0 <= k < len(data):
+                        offs.add(k)
+            elif arg is not None and hasattr(arg, '__len__') and len(arg) > 60000:
+                # an object written outside the frames: its header and both ends
+                for k in (pos, pos + 1, pos + 5, pos + 9, pos + 10, pos + len(arg)):
+                    if 0 <= k < len(data):
+                        offs.add(k)
+    except Exception:  # noqa
+        pass
+    return offs
+
+
+def offsets_for(rng, n, limit, data=None):
     if n <= limit:
         return list(range(n)), []
-    offs = sorted(set([0, 1, 2, 3, 10, 11, 12, n - 1, n - 2] +
-                      [rng.randrange(n) for _ in range(min(limit, 250))]))
+    offs = set(range(min(32, n))) | set(range(max(0, n - 32), n))
+    if data is not None:
+        offs |= frame_offsets(data)
+    offs |= set(rng.randrange(n) for _ in range(min(limit, 250)))
+    offs = sorted(offs)
     return offs, offs
 
 
@@ -424,6 +447,82 @@ def feed_prefixes(ctx, mods, data, offs, case, path):
                                dict(case, offset=k), key='from_file-partial-entry')
             return False
     return True
+
+
+def scheduler_like_mutation(mods, env, rng):
+    '''what a run does in memory to the environment it got from a read: statuses,
+    payloads, clocks change, entries come and go'''
+    status = mods['TaskStatus']
+    for name in list(env):
+        entry = env[name]
+        r = rng.random()
+        if r < 0.25:
+            del env[name]
+            continue
+        if isinstance(entry, dict):
+            entry['status'] = rng.choice([status.WAITING, status.PENDING, status.FAILED, status.SKIPPED])
+            entry['start_clock'] = rng.random()
+            entry['end_clock'] = 1.0 + rng.random()
+            for key in list(entry):
+                val = entry[key]
+                if isinstance(val, list):
+                    val.append('mutated')
+                elif isinstance(val, dict):
+                    val['mutated'] = True
+                elif key not in ('status', 'output_dir') and rng.random() < 0.3:
+                    del entry[key]
+    env['made-up-by-the-run'] = {'status': status.DONE}
+
+
+def toggle_same_size(spec, seed):
+    '''an entry spec that pickles to the same number of bytes with other content:
+    DONE <-> FAILED, and one letter of a string payload changed'''
+    spec = json.loads(json.dumps(spec))
+    if spec[0] != 'D':
+        return spec
+    for item in spec[1]:
+        key, val = item
+        if key == ['S', 'status'] and val[0] == 'ST':
+            val[1] = 4 if val[1] == 3 else 3
+        elif seed % 2 and val[0] == 'S' and key != ['S', 'output_dir'] and val[1][:1].isascii() \
+                and val[1][:1].isalpha():
+            val[1] = ('q' if val[1][0] != 'q' else 'r') + val[1][1:]
+    return spec
+
+
+def reread_checks(ctx, mods, case, path, obs, want):
+    '''repeated reads in one process: what a read returns is the FILE, whatever
+    happened in memory to the result of an earlier read, and whatever the size and
+    time stamps of the file are'''
+    import random
+    if obs[0] != 'env':
+        return
+    rng = random.Random(len(json.dumps(case)))
+    scheduler_like_mutation(mods, obs[1], rng)
+    again = call_from_file(mods, path)
+    ctx.count('from_file_reread_after_mutation')
+    if again[0] != 'env' or canon(again[1]) != want:
+        ctx.oracle_failure(f'a second Env.from_file of an unchanged file does not return what the file '
+                           f'holds after the first result was modified in memory :: '
+                           f'{json.dumps(case)[:300]}', case, key='from_file-reread')
+        return
+    # rewrite with other content of the same size, same time stamps
+    spec2 = ['E', [[name, toggle_same_size(ent, 1)] for name, ent in case['env'][1]]]
+    if spec2 == case['env']:
+        return
+    stat = os.stat(path)
+    obj2 = build(spec2, {}, mods)
+    obj2.to_file(path)
+    if os.path.getsize(path) != stat.st_size:
+        ctx.count('rewrite_other_size')
+    else:
+        ctx.count('rewrite_same_size_same_mtime')
+        os.utime(path, ns=(stat.st_atime_ns, stat.st_mtime_ns))
+    third = call_from_file(mods, path)
+    if third[0] != 'env' or canon(third[1]) != canon(obj2):
+        ctx.oracle_failure(f'Env.from_file does not return the content of a file rewritten with '
+                           f'the same size and time stamps :: {json.dumps(case)[:300]}', case,
+                           key='from_file-stale-after-rewrite')
 
 
 def run_dec(ctx, mods, case, out):
@@ -455,7 +554,8 @@ def run_dec(ctx, mods, case, out):
             ctx.oracle_failure(f'from_file does not return the pickled environment '
                                f':: (protocol {case["proto"]}, {case["variant"]}) '
                                f'{json.dumps(case)[:300]}', case, key='roundtrip-variant')
-    offs, explicit = offsets_for(ctx.rng, len(data), case.get('limit', 400 if ctx.tier == 'quick' else 700))
+    reread_checks(ctx, mods, case, path, obs, want)
+    offs, explicit = offsets_for(ctx.rng, len(data), case.get('limit', 400 if ctx.tier == 'quick' else 700), data)
     eofs, bad = prefix_classes(ctx, data, offs, case)
     feed_prefixes(ctx, mods, data, offs, case, path)
     for k, cls in bad:
@@ -478,7 +578,7 @@ def run_scan(ctx, mods, case, out):
         data = pickle.dumps(obj, protocol=case['proto'])
     except Exception:  # noqa  (some payloads need protocol >= 2)
         return False
-    offs, explicit = offsets_for(ctx.rng, len(data), case.get('limit', 400 if ctx.tier == 'quick' else 700))
+    offs, explicit = offsets_for(ctx.rng, len(data), case.get('limit', 400 if ctx.tier == 'quick' else 700), data)
     eofs, bad = prefix_classes(ctx, data, offs, case)
     for k, cls in bad:
         ctx.mismatch(f'pickle.loads of the first {k} of {len(data)} bytes gives {cls}, the model says '
@@ -606,6 +706,110 @@ def run_corrupt(ctx, mods, case):
     return obs[0] == 'none'
 
 
+# ---- large payloads ----------------------------------------------------------
+
+def large_payload(kind, size, seed):
+    '''payloads whose pickle has about `size` bytes: several frames, objects written
+    outside the frames, more than 1 MiB'''
+    import random
+    import numpy as np
+    rng = random.Random(seed)
+    if kind == 'bytes':
+        return rng.randbytes(size)
+    if kind == 'zeros':
+        return bytes(size)
+    if kind == 'str':
+        return ''.join(rng.choice('abcdefghij klmnop\u00e9') for _ in range(64)) * (size // 64)
+    if kind == 'ints':
+        return [rng.getrandbits(31) for _ in range(size // 5)]
+    if kind == 'floats':
+        return [rng.random() for _ in range(size // 9)]
+    if kind == 'ndarray':
+        return np.arange(size // 8, dtype='f8') * 0.5
+    if kind == 'chunks':
+        return {f'k{i}': rng.randbytes(70000) for i in range(max(1, size // 70000))}
+    if kind == 'rows':
+        return [(i, float(i), f'row{i}', None) for i in range(size // 18)]
+    raise ValueError(kind)
+
+
+def same_pickle(obj1, obj2):
+    return pickle.dumps(obj1, protocol=4) == pickle.dumps(obj2, protocol=4)
+
+
+def run_large(ctx, mods, case):
+    '''oracle only: big entries through to_file/from_file and write_env/read_env,
+    cut at the first and last 32 bytes, around the frame boundaries and at a few
+    hundred random offsets'''
+    import random
+    from valjean.cambronne.common import read_env, write_env
+    status = mods['TaskStatus']
+    root = os.path.join(ctx.wd(), 'large')
+    shutil.rmtree(root, ignore_errors=True)
+    os.makedirs(os.path.join(root, 'big'))
+    os.makedirs(os.path.join(root, 'small'))
+    payload = large_payload(case['payload'], case['size'], case['seed'])
+
+    def fresh():
+        return mods['Env']({
+            'big': {'status': status.DONE, 'output_dir': os.path.join(root, 'big'),
+                    'result': large_payload(case['payload'], case['size'], case['seed'])},
+            'small': {'status': status.DONE, 'output_dir': os.path.join(root, 'small'), 'result': [1, 2]}})
+    env = fresh()
+    del payload
+    names = ['big', 'small']
+    what = None
+    try:
+        write_env(env, filename=FILENAME, fmt='pickle')
+        back = read_env(root=root, names=names, filename=FILENAME, fmt='pickle')
+    except BaseException as exc:  # noqa
+        ctx.oracle_failure(f'write_env/read_env of a large entry raises {type(exc).__name__} '
+                           f':: {json.dumps(case)}', case, key='large-roundtrip-raises')
+        return False
+    if sorted(back) != names or not same_pickle(dict(back['big']), dict(env['big'])) \
+            or not same_pickle(dict(back['small']), dict(env['small'])):
+        ctx.oracle_failure(f'read_env does not return the large DONE entry that was written '
+                           f':: {json.dumps(case)}', case, key='large-roundtrip-differs')
+        return False
+    path = os.path.join(root, 'big', FILENAME)
+    with open(path, 'rb') as fil:
+        data = fil.read()
+    size = len(data)
+    ctx.count('large_file_bytes', size)
+    rng = random.Random(case['seed'])
+    offs = set(range(min(32, size))) | set(range(max(0, size - 32), size)) | frame_offsets(data)
+    offs |= set(rng.randrange(size) for _ in range(case.get('noffs', 250)))
+    small_want = dict(env['small'])
+    for k in sorted(offs, reverse=True):
+        os.truncate(path, k)
+        ctx.count('large_prefixes')
+        obs = call_from_file(mods, path)
+        if obs[0] == 'raise':
+            what = f'Env.from_file raises {obs[2]} on a truncated large environment file'
+            key = 'from_file-raises-' + obs[1]
+        elif obs[0] == 'env' and len(obs[1]) > 0:
+            what, key = 'Env.from_file returns entries from a truncated large file', 'from_file-partial-entry'
+        else:
+            try:
+                res = read_env(root=root, names=names, filename=FILENAME, fmt='pickle')
+            except BaseException as exc:  # noqa
+                what = f'read_env raises {type(exc).__name__} with a truncated large environment file'
+                key = 'read_env-raises-' + exn_class(exc)
+            else:
+                if 'big' in res:
+                    what, key = 'read_env reports as DONE a task whose large file is truncated', \
+                        'read_env-reports-done'
+                elif list(res) != ['small'] or not same_pickle(dict(res['small']), small_want):
+                    what, key = 'read_env loses the DONE entry of a task whose file is intact', \
+                        'read_env-loses-done'
+        if what:
+            ctx.oracle_failure(f'{what} :: first {k} of {size} bytes, {json.dumps(case)}',
+                               dict(case, offset=k), key=key)
+            break
+    shutil.rmtree(root, ignore_errors=True)
+    return what is None
+
+
 # ---- file-system histories -------------------------------------------------
 
 def gen_fs_case(rng, idx):
@@ -650,6 +854,18 @@ def gen_fs_case(rng, idx):
         if rng.random() < 0.2:
             rnames = rnames[:rng.randint(0, len(rnames))] + ['ghost']
         ops.append(['read', rnames])
+        # the same process goes on: the result of the read is modified in memory (a run),
+        # files are rewritten with content of the same size, and the files are read again
+        if rng.random() < 0.6:
+            ops[-1] = ['read', rnames, rng.getrandbits(30)]
+            for _ in range(rng.choice([0, 0, 1, 2])):
+                ops.append(['rewrite', rng.choice(names), rng.getrandbits(8)])
+            again = list(rnames)
+            if rng.random() < 0.3:
+                rng.shuffle(again)
+            ops.append(['read', again, rng.getrandbits(30)])
+            if rng.random() < 0.3:
+                ops.append(['read', again])
     return {'kind': 'fs', 'idx': idx, 'names': names, 'ops': ops}
 
 
@@ -687,8 +903,20 @@ def run_fs(ctx, mods, case, out):
 
     for op in case['ops']:
         kind = op[0]
-        if kind in ('write', 'crashwrite'):
+        oldstat = {}
+        if kind == 'rewrite':
+            # other content of the same size at the same path, time stamps restored
+            p = fpath(op[1])
+            st = truth.get(p)
+            if not st or st[0] != 'intact' or not os.path.isfile(p):
+                continue
+            entries = [[st[1], toggle_same_size(st[3], op[2])]]
+            oldstat[p] = os.stat(p)
+            kind = 'write'
+        elif kind in ('write', 'crashwrite'):
             entries = subst(op[1], root)
+        if kind in ('write', 'crashwrite'):
+            specs = dict((n, sp) for n, sp in entries)
             env = build(['E', entries], {}, mods)
             for name, sub in env.items():
                 if 'output_dir' in sub:
@@ -721,7 +949,13 @@ def run_fs(ctx, mods, case, out):
                     ctx.oracle_failure(f'write_env does not write {os.path.relpath(p, root)} '
                                        f':: {json.dumps(case)[:300]}', case, key='write_env-missing-file')
                     continue
-                truth[p] = ('intact', name, canon(sub))
+                truth[p] = ('intact', name, canon(sub), specs[name])
+                if p in oldstat:
+                    if os.path.getsize(p) == oldstat[p].st_size:
+                        os.utime(p, ns=(oldstat[p].st_atime_ns, oldstat[p].st_mtime_ns))
+                        ctx.count('fs_rewrite_same_size_same_mtime')
+                    else:
+                        ctx.count('fs_rewrite_other_size')
             items = [(canon(k), canon(v)) for k, v in env.items()]
             coq_ops.append('OWriteEnv ' + coq_items(items) + ' ['
                            + '; '.join(f'({cbytes(p.encode())}, {cbytes(b)})' for p, b in written) + ']')
@@ -781,6 +1015,10 @@ def run_fs(ctx, mods, case, out):
                                            key='read_env-reports-done' if done else 'read_env-non-done-entry')
                 if expect:
                     nontrivial[1] = True
+            if len(op) > 2 and got is not None:
+                # the run that follows a read changes its result in memory
+                scheduler_like_mutation(mods, res, random.Random(op[2]))
+                ctx.count('fs_read_result_mutated')
             coq_ops.append(f'ORead {cbytes(broot)} {cbytes(bfile)} '
                            + '[' + '; '.join(cbytes(n.encode()) for n in names) + '] '
                            + ('None' if got is None else '(Some ' + coq_items(got) + ')'))
@@ -888,6 +1126,23 @@ def gen_cases(ctx):
                    ['t1', gen_entry(rng, 't1', '{root}', status=3, rich=False)]]],
         ['empty', 't0', 0.0, 0], ['read', ['t0', 't1']],
         ['cut', 't1', 0.5, 0], ['read', ['t0', 't1']]]})
+    # repeated reads in one process around an in-memory run, same-size rewrites
+    e0 = gen_entry(rng, 't0', '{root}', status=3, rich=False)
+    e1 = gen_entry(rng, 't1', '{root}', status=4, rich=False)
+    cases.append({'kind': 'fs', 'idx': 100000, 'names': ['t0', 't1'], 'ops': [
+        ['write', [['t0', e0], ['t1', e1]]], ['read', ['t0', 't1'], 1], ['read', ['t0', 't1'], 2],
+        ['rewrite', 't0', 0], ['rewrite', 't1', 1], ['read', ['t0', 't1'], 3],
+        ['rewrite', 't0', 1], ['read', ['t1', 't0']]]})
+    # --- large entries (oracle only): > 64 KiB (several frames), > 1 MiB
+    mib = 2 ** 20
+    large = [('bytes', mib + 4096), ('ints', mib + mib // 4), ('str', 300000)]
+    if not quick:
+        large += [('zeros', 3 * mib), ('floats', 2 * mib), ('ndarray', mib + 8), ('chunks', 2 * mib),
+                  ('rows', mib + mib // 2), ('bytes', mib - 64), ('bytes', 5 * mib), ('str', mib + mib // 8),
+                  ('chunks', 200000), ('ints', 400000), ('ndarray', 4 * mib), ('floats', 70000)]
+    for i, (payload, size) in enumerate(large):
+        cases.append({'kind': 'large', 'payload': payload, 'size': size, 'seed': rng.getrandbits(30),
+                      'noffs': 200 if quick else 400})
     # --- random environments, protocols and framings, every truncation offset
     nenv = 100 if quick else 1200
     for _ in range(nenv):
@@ -941,6 +1196,8 @@ def run_case(ctx, mods, case, out, enc_cases):
         return run_caught(ctx, mods, case, out)
     if kind == 'fs':
         return run_fs(ctx, mods, case, out)
+    if kind == 'large':
+        return run_large(ctx, mods, case)
     if kind == 'corruptgen':
         data = pickle.dumps(build(case['env'], {}, mods))
         crng = random.Random(case['seed'])
@@ -976,8 +1233,10 @@ def run(ctx):
                 'each compared with the model decoder on the value and at EVERY truncation offset '
                 '(250 sampled offsets for pickles > 400 bytes quick / 700 thorough); opcode-stream comparison at every offset for '
                 'protocols 0-2 and payloads outside the universe; write/crash/cut/delete/garbage/read '
-                'histories through the real write_env/read_env; corrupted files through the real '
-                'from_file.  Non-trivial: an environment with at least one entry / a history with a '
+                'histories through the real write_env/read_env, with repeated reads in one process around '
+                'in-memory modification of the result and rewrites of the same size and time stamps; '
+                'entries of 0.3-5 MiB cut at the first/last 32 bytes, frame boundaries and random offsets; '
+                'corrupted files through the real from_file.  Non-trivial: an environment with at least one entry / a history with a '
                 'damaged file and an intact DONE entry; distinct by case content')
     cases = gen_cases(ctx)
     out, enc_cases = [], []
